@@ -106,8 +106,12 @@ def conclude(prop, tier, seed, mod, results, lost, jobs, wall):
         for k, v in r['flags'].items():
             if k == 'crashes':
                 crashes += v
+            elif isinstance(v, dict) and isinstance(flags.get(k), dict):
+                flags[k].update(v)
             else:
                 flags[k] = v
+    if hasattr(mod, 'post_merge'):
+        mod.post_merge(counters, flags)
     known = core.load_known()
     lines = []
     kf_out = {}
